@@ -14,7 +14,7 @@ PYTHONPATH=$WT timeout 120 /venv/bin/python $OUT/demo_$K.py >/dev/null 2>&1; CLE
 if ! git apply $OUT/patch_$K.diff 2>/dev/null; then
   if ! git apply -3 $OUT/patch_$K.diff 2>/dev/null; then echo "$PID-$K: PATCH DOES NOT APPLY"; exit 1; fi
 fi
-git diff > /tmp/confirm_${PID}_${K}.diff
+git diff HEAD > /tmp/confirm_${PID}_${K}.diff
 PYTHONPATH=$WT timeout 120 /venv/bin/python $OUT/demo_$K.py >/tmp/confirm_${PID}_${K}.demo 2>&1; CHANGED=$?
 MIROS_REPO=$WT /verif/tools/baseline.py > /tmp/confirm_${PID}_${K}.tests 2>&1; TESTS=$?
 echo "$PID-$K: demo clean rc=$CLEAN, demo changed rc=$CHANGED, tests rc=$TESTS ($(tail -1 /tmp/confirm_${PID}_${K}.tests))"
